@@ -4,7 +4,7 @@ from contracts import c11, c10
 
 
 def main(tier):
-    return generic.run('C10', 'other', tier, c10, c10.PROGRAMS, c10.FUNCS + c11.FUNCS,
+    return generic.run('C10', 'other', tier, c10, c10.programs(tier), c10.FUNCS + c11.FUNCS,
         'c10_geoedits.py', 'wellformed_after_every_edit',
         'exhaustive: every operation with every column subset (level 1), bounded subset families at level 2 (and 3 in the thorough tier) on a 2x2, a 3x2 and a mixed triangle/quad/pentagon mesh over {split, rename, '
         'refine variants, decompose, reduce, delete, refine_layers, snap, fit_surface, translate, rotate, copy_layers_from, add/delete node / column / connection / layer / well, check(fix=True)}; random 25-operation '
